@@ -1407,7 +1407,25 @@ func main() {
 		}
 		fmt.Fprintf(&b, "  (%d, %s)%s\n", a.ID, coqStr(a.Kind+" -- "+a.Src), sep)
 	}
-	b.WriteString("].\n(* credentials configured = these atoms hold (login and password non-empty) *)\n")
+	b.WriteString("].\n")
+	// the same, as data: model/AuthEnv.v turns a configuration (as portEnv leaves it) into a valuation of the atoms
+	var aks []string
+	for _, a := range w.atoms {
+		switch {
+		case a.Kind == "login_set":
+			aks = append(aks, "AKLogin")
+		case a.Kind == "pass_set":
+			aks = append(aks, "AKPass")
+		case a.Kind == "cors_enable":
+			aks = append(aks, "AKCors")
+		case strings.HasPrefix(a.Kind, "mode_eq:"):
+			aks = append(aks, "AKMode "+coqStr(strings.TrimPrefix(a.Kind, "mode_eq:")))
+		default:
+			aks = append(aks, "AKOther")
+		}
+	}
+	fmt.Fprintf(&b, "Definition gen_atom_kinds : list atom_kind := [%s].\n", strings.Join(aks, "; "))
+	b.WriteString("(* credentials configured = these atoms hold (login and password non-empty) *)\n")
 	ms := []string{}
 	for _, m := range must {
 		ms = append(ms, strconv.Itoa(m))
